@@ -377,6 +377,7 @@ def r_band_map(rep, f):
     idx = "matrix::index::<impl std::ops::Index<(usize, usize)> for matrix::base::Matrix>::index"
     idxm = "matrix::index::<impl std::ops::IndexMut<(usize, usize)> for matrix::base::Matrix>::index_mut"
     got = {}
+    known_at = {}
     for fn in (idx, idxm):
         if fn not in f.bodies:
             rep.inconc("R-BAND-MAP", "R-BAND-MAP:anchor", "%s not found" % fn)
@@ -421,12 +422,15 @@ def r_band_map(rep, f):
         def e_index(e):
             if e is node:
                 captured["off"] = sub.eval(e["i"])
+                # everything known on the path at the access: enclosing tests and earlier tests whose other branch left
+                captured["known"] = [(cv, br == "then") for nd_, br, cv in sub.pc] + [(cv, bool(tr_)) for cv, tr_ in sub.path_facts()]
             return orig(e)
         sub.e_Index = e_index
         sub.eval(b["body"])
         off = captured.get("off")
         branch = ifs[-1][1] if ifs else None
         got[fn] = (cond_val, branch, off, node)
+        known_at[fn] = captured.get("known") or []
     (c1, b1, o1, n1), (c2, b2, o2, n2) = got[idx], got[idxm]
     key = "R-BAND-MAP:offset"
 
@@ -476,6 +480,30 @@ def r_band_map(rep, f):
             collect(c)
     d1, d2 = norm_cmp(c1) if c1 is not None else None, norm_cmp(c2) if c2 is not None else None
     key = "R-BAND-MAP:predicate"
+
+    def from_known(fn_):
+        """the in-band predicate as the conjunction of every comparison known at the data access (tests that enclose it and
+        earlier tests whose other branch diverged), whatever the nesting"""
+        out = frozenset([frozenset()])
+        n_ = 0
+        for cv, truth in known_at.get(fn_, []):
+            cv = rename_cond(cv)
+            if isinstance(cv, Poly):
+                collect(cv)
+            d_ = norm_cmp(cv)
+            if d_ is None:
+                continue
+            if not truth:
+                d_ = negate_dnf(d_, polys)
+            if d_ is None:
+                continue
+            out = frozenset(a_ | b_ for a_ in out for b_ in d_)
+            n_ += 1
+        return out if n_ else None
+    if d1 is None or d2 is None or True:
+        k1, k2 = from_known(idx), from_known(idxm)
+        if k1 is not None and k2 is not None:
+            d1, d2, b1, b2 = k1, k2, "then", "then"
     if d1 is None or d2 is None:
         rep.inconc("R-BAND-MAP", key, "in-band predicates are not comparisons of i-j with the bandwidths")
         return
@@ -608,7 +636,7 @@ def run(rep, tier):
     rep.rule("R-MACRO-WITNESS", "each documented macro constructor form type-checks from outside the crate (cargo check of a witness crate; nothing is executed)")
     r_mat_repinv(rep, f)
     r_band_map(rep, f)
-    r_band_densify(rep, f)
+    floor_note = r_band_densify(rep, f)
     r_idx_diverge(rep, f)
     r_macro_paths(rep, f)
     rep.rule("R-DATA-RAW", "element-wise arithmetic on raw matrix data happens only under a Full/Banded storage pattern (never for Identity, whose data are a tag)")
@@ -623,6 +651,14 @@ def run(rep, tier):
     nmax = 8 if tier == "thorough" else 3      # the property's sizes 1..8 are all enumerated in the thorough tier
     matx.r_mat_dense(rep, f, nmax, jobs=14 if tier == "thorough" else 1)
     matx.r_mat_write_guard(rep, f, min(nmax, 4))
+    if floor_note:
+        # fewer band-walking loops than on the pinned tree (shared helpers): every loop that exists was checked; that no
+        # operator lost its band handling is what R-MAT-DENSE decides by evaluating every operator on every band shape
+        dense_ok = sum(1 for r_, k_, d_ in rep.discharged if r_ == "R-MAT-DENSE") >= 5 and not any(x["rule"] == "R-MAT-DENSE" for x in rep.inconclusive + rep.violations)
+        if dense_ok:
+            rep.note("R-BAND-DENSIFY:floor %s - covered by R-MAT-DENSE (decided)" % floor_note)
+        else:
+            rep.inconc("R-BAND-DENSIFY", "R-BAND-DENSIFY:floor", floor_note)
     rep.explanation = ("Structural: representation invariants of every constructor / operator result (symbolic lengths), agreement of the read and write index maps, divergence of illegal writes, "
                        "and compile witnesses for the macro constructors. R-MAT-DENSE decides entrywise equality of every operator with the dense model for all data and every storage shape up to the stated size (sizes beyond it are not enumerated).")
 
@@ -673,4 +709,5 @@ def r_band_densify(rep, f):
                 rep.violation("R-BAND-DENSIFY", key, "compact band row r is mapped to the diagonal i - j = r - (%s); the storage convention (row = i - j + mu) requires r - mu: "
                               "entries land on the wrong diagonals when ml != mu" % nm, lets[0].get("sp"))
     if n < 8:
-        rep.inconc("R-BAND-DENSIFY", "R-BAND-DENSIFY:floor", "only %d band-walking loops found (expected 8)" % n)
+        return "only %d band-walking loops found (expected 8)" % n
+    return None
